@@ -1,6 +1,10 @@
 /* vf_os.c -- OS shim + ledger + fault plan + virtual clock (see vf_os.h). */
+#ifndef _GNU_SOURCE
 #define _GNU_SOURCE
+#endif
 #include "vf_os.h"
+#include <map>
+#include <vector>
 #include <sys/mman.h>
 #include <errno.h>
 #include <stdlib.h>
@@ -9,11 +13,18 @@
 #include <sched.h>
 #include <unistd.h>
 
+extern "C" {
 void* __real_mmap(void* addr, size_t len, int prot, int flags, int fd, off_t off);
 int   __real_munmap(void* addr, size_t len);
 int   __real_mprotect(void* addr, size_t len, int prot);
 int   __real_madvise(void* addr, size_t len, int advice);
 int   __real_clock_gettime(clockid_t clk, struct timespec* ts);
+void* __wrap_mmap(void* addr, size_t len, int prot, int flags, int fd, off_t off);
+int   __wrap_munmap(void* addr, size_t len);
+int   __wrap_mprotect(void* addr, size_t len, int prot);
+int   __wrap_madvise(void* addr, size_t len, int advice);
+int   __wrap_clock_gettime(clockid_t clk, struct timespec* ts);
+}
 
 void* vf_real_mmap(void* addr, size_t len, int prot, int flags, int fd, long off) { return __real_mmap(addr, len, prot, flags, fd, (off_t)off); }
 int   vf_real_munmap(void* addr, size_t len) { return __real_munmap(addr, len); }
@@ -21,9 +32,11 @@ int   vf_real_mprotect(void* addr, size_t len, int prot) { return __real_mprotec
 
 #define PG 4096u
 
-typedef struct region_s { uintptr_t base; size_t len; uint64_t ordinal; uint8_t* st; } region_t;
-
-static region_t* g_reg = NULL; static size_t g_nreg = 0, g_capreg = 0;
+// ledger: mapped address space as maximal runs [start,end) of equal (page state, ordinal); sparse, so a 64 TiB
+// NORESERVE mapping costs one entry
+struct Run { uintptr_t end; uint8_t st; uint64_t ordinal; };
+static std::map<uintptr_t, Run>* g_runs = nullptr;
+static inline std::map<uintptr_t, Run>& runs() { if (!g_runs) g_runs = new std::map<uintptr_t, Run>(); return *g_runs; }
 static uint64_t  g_ordinal = 0;
 static volatile int g_lock = 0;
 static vf_os_counts_t g_cnt;
@@ -73,41 +86,34 @@ int64_t vf_clock_offset_ms(void) { return __atomic_load_n(&g_clock_off_ns, __ATO
 void vf_os_set_purge_cb(vf_os_range_cb cb) { g_purge_cb = cb; }
 
 /* ---- ledger ---- */
-static void reg_add(uintptr_t base, size_t len, uint8_t init, uint8_t* st_from, uint64_t ordinal) {
-  if (g_nreg == g_capreg) { g_capreg = (g_capreg ? g_capreg * 2 : 64); g_reg = (region_t*)realloc(g_reg, g_capreg * sizeof(region_t)); }
-  region_t* r = &g_reg[g_nreg++];
-  r->base = base; r->len = len; r->ordinal = ordinal;
-  size_t np = (len + PG - 1) / PG;
-  r->st = (uint8_t*)malloc(np ? np : 1);
-  if (st_from) memcpy(r->st, st_from, np); else memset(r->st, init, np);
+// make sure a run boundary exists at address a (if a is inside a run)
+static void split_at(uintptr_t a) {
+  auto& m = runs();
+  auto it = m.upper_bound(a);
+  if (it == m.begin()) return;
+  --it;
+  if (it->first < a && a < it->second.end) { Run r = it->second; it->second.end = a; m[a] = r; }
 }
 static void reg_unmap(uintptr_t ub, size_t ulen) {
+  auto& m = runs();
   uintptr_t ue = ub + ulen;
-  for (size_t i = 0; i < g_nreg; ) {
-    region_t r = g_reg[i];
-    uintptr_t b = r.base, e = r.base + r.len;
-    if (ue <= b || ub >= e) { i++; continue; }
-    /* remove r, re-add remaining pieces */
-    g_reg[i] = g_reg[--g_nreg];
-    if (b < ub) reg_add(b, ub - b, 0, r.st, r.ordinal);
-    if (ue < e) reg_add(ue, e - ue, 0, r.st + (ue - b) / PG, r.ordinal);
-    free(r.st);
-    /* do not advance: slot i now holds another region (pieces were appended at the end and do not intersect) */
-  }
+  split_at(ub); split_at(ue);
+  auto it = m.lower_bound(ub);
+  while (it != m.end() && it->first < ue) it = m.erase(it);
 }
-/* set state over [a,a+len): returns 1 if completely inside known regions */
+static void reg_add(uintptr_t base, size_t len, uint8_t st, uint64_t ordinal) {
+  Run r; r.end = base + len; r.st = st; r.ordinal = ordinal;
+  runs()[base] = r;
+}
+/* set state over [a,a+len): returns 1 if some part was inside known regions */
 static int reg_set_state(uintptr_t a, size_t len, int newstate) {
+  auto& m = runs();
   uintptr_t e = a + len; int found = 0;
-  for (size_t i = 0; i < g_nreg; i++) {
-    region_t* r = &g_reg[i];
-    uintptr_t b = r->base, re = r->base + r->len;
-    if (e <= b || a >= re) continue;
-    uintptr_t lo = (a > b ? a : b), hi = (e < re ? e : re);
-    size_t p0 = (lo - b) / PG, p1 = (hi - b + PG - 1) / PG;
-    for (size_t p = p0; p < p1; p++) {
-      if (newstate == VF_PG_PURGED) { if (r->st[p] == VF_PG_RW) r->st[p] = VF_PG_PURGED; }
-      else r->st[p] = (uint8_t)newstate;
-    }
+  a &= ~(uintptr_t)(PG - 1); e = (e + PG - 1) & ~(uintptr_t)(PG - 1);
+  split_at(a); split_at(e);
+  for (auto it = m.lower_bound(a); it != m.end() && it->first < e; ++it) {
+    if (newstate == VF_PG_PURGED) { if (it->second.st == VF_PG_RW) it->second.st = VF_PG_PURGED; }
+    else it->second.st = (uint8_t)newstate;
     found = 1;
   }
   return found;
@@ -122,7 +128,7 @@ void* __wrap_mmap(void* addr, size_t len, int prot, int flags, int fd, off_t off
   else {
     g_cnt.mmap_bytes += len;
     if (flags & MAP_FIXED) reg_unmap((uintptr_t)p, len);
-    reg_add((uintptr_t)p, len, (prot & PROT_WRITE) ? VF_PG_RW : VF_PG_NONE, NULL, ++g_ordinal);
+    reg_add((uintptr_t)p, len, (prot & PROT_WRITE) ? VF_PG_RW : VF_PG_NONE, ++g_ordinal);
   }
   unlock();
   return p;
@@ -190,41 +196,41 @@ int __wrap_clock_gettime(clockid_t clk, struct timespec* ts) {
 
 void vf_os_get_counts(vf_os_counts_t* out) { lock(); *out = g_cnt; unlock(); }
 
+// regions = maximal address ranges with the same mapping ordinal
 size_t vf_os_regions(vf_os_region_t* out, size_t max) {
   lock();
   size_t n = 0;
-  for (size_t i = 0; i < g_nreg && n < max; i++) { out[n].base = g_reg[i].base; out[n].len = g_reg[i].len; out[n].ordinal = g_reg[i].ordinal; n++; }
-  size_t total = g_nreg;
+  uintptr_t cb = 0, ce = 0; uint64_t co = 0; bool open = false;
+  for (auto& kv : runs()) {
+    if (open && kv.first == ce && kv.second.ordinal == co) { ce = kv.second.end; continue; }
+    if (open) { if (out && n < max) { out[n].base = cb; out[n].len = ce - cb; out[n].ordinal = co; } n++; }
+    cb = kv.first; ce = kv.second.end; co = kv.second.ordinal; open = true;
+  }
+  if (open) { if (out && n < max) { out[n].base = cb; out[n].len = ce - cb; out[n].ordinal = co; } n++; }
   unlock();
-  return (max == 0 ? total : n);
+  return (out && n > max ? max : n);
 }
-size_t vf_os_mapped_bytes(void) { lock(); size_t s = 0; for (size_t i = 0; i < g_nreg; i++) s += g_reg[i].len; unlock(); return s; }
+size_t vf_os_mapped_bytes(void) { lock(); size_t s = 0; for (auto& kv : runs()) s += kv.second.end - kv.first; unlock(); return s; }
 
 size_t vf_os_state_bytes(int state) {
   lock(); size_t s = 0;
-  for (size_t i = 0; i < g_nreg; i++) { size_t np = (g_reg[i].len + PG - 1) / PG; for (size_t p = 0; p < np; p++) if (g_reg[i].st[p] == state) s += PG; }
+  for (auto& kv : runs()) if (kv.second.st == state) s += kv.second.end - kv.first;
   unlock(); return s;
 }
 
 size_t vf_os_committed_resident(uintptr_t base, size_t len) {
   size_t total = 0;
+  static unsigned char vec[16384];
   lock();
-  for (size_t i = 0; i < g_nreg; i++) {
-    region_t* r = &g_reg[i];
-    uintptr_t b = r->base, e = r->base + r->len;
+  for (auto& kv : runs()) {
+    if (kv.second.st != VF_PG_RW) continue;
+    uintptr_t b = kv.first, e = kv.second.end;
     if (base != 0) { if (base + len <= b || base >= e) continue; if (base > b) b = base; if (base + len < e) e = base + len; }
     b &= ~(uintptr_t)(PG - 1);
-    /* chunked mincore */
-    static unsigned char vec[16384];
     for (uintptr_t a = b; a < e; ) {
       size_t chunk = e - a; if (chunk > sizeof(vec) * (size_t)PG) chunk = sizeof(vec) * (size_t)PG;
       size_t np = (chunk + PG - 1) / PG;
-      if (mincore((void*)a, chunk, vec) == 0) {
-        for (size_t p = 0; p < np; p++) {
-          size_t idx = (a - r->base) / PG + p;
-          if ((vec[p] & 1) && r->st[idx] == VF_PG_RW) total += PG;
-        }
-      }
+      if (mincore((void*)a, chunk, vec) == 0) { for (size_t p = 0; p < np; p++) if (vec[p] & 1) total += PG; }
       a += chunk;
     }
   }
@@ -235,15 +241,17 @@ size_t vf_os_committed_resident(uintptr_t base, size_t len) {
 int vf_os_page_state(const void* p) {
   uintptr_t a = (uintptr_t)p; int st = -1;
   lock();
-  for (size_t i = 0; i < g_nreg; i++) if (a >= g_reg[i].base && a < g_reg[i].base + g_reg[i].len) { st = g_reg[i].st[(a - g_reg[i].base) / PG]; break; }
+  auto& m = runs();
+  auto it = m.upper_bound(a);
+  if (it != m.begin()) { --it; if (a < it->second.end) st = it->second.st; }
   unlock();
   return st;
 }
 
 void vf_os_dump_regions(FILE* f, size_t max) {
-  lock();
+  std::vector<vf_os_region_t> v(max ? max : 1);
+  size_t n = vf_os_regions(v.data(), max);
   fputc('[', f);
-  for (size_t i = 0; i < g_nreg && i < max; i++) fprintf(f, "%s[\"0x%lx\",%zu,%llu]", (i ? "," : ""), (unsigned long)g_reg[i].base, g_reg[i].len, (unsigned long long)g_reg[i].ordinal);
+  for (size_t i = 0; i < n && i < max; i++) fprintf(f, "%s[\"0x%lx\",%zu,%llu]", (i ? "," : ""), (unsigned long)v[i].base, v[i].len, (unsigned long long)v[i].ordinal);
   fputc(']', f);
-  unlock();
 }
